@@ -425,6 +425,7 @@ theorem valEq_refl (w : World) (x : Val) : valEq w x x = true := by
     | nil => rfl
     | cons a xs ih => simp [List.zip_cons_cons, List.all_cons, objEq_refl, ih]
   | none => simp [valEq]
+  | set xs => simp [valEq]
 
 /-- same members -/
 def SameMem {α} (l l' : List α) : Prop := ∀ x, x ∈ l ↔ x ∈ l'
@@ -1522,6 +1523,7 @@ theorem conforms_of_conformsB {w : World} {s : Schema} (h : conformsB w s = true
   | list _ => simp [isInstance] at hi
   | objs _ => simp [isInstance] at hi
   | none => simp [isInstance] at hi
+  | set _ => simp [isInstance] at hi
 
 /-! ## `wit` is non-empty exactly when the value matches -/
 
